@@ -34,6 +34,19 @@ CLAIMED = {
     },
 }
 
+CLAIMED.update({
+    "C09": {
+        "text": "Kani contracts on the pure kernels the integrity argument rests on (complete over the full domain unless marked): derive_gcm_nonce keeps the 4-byte salt and is injective in the chunk index (no nonce reuse across chunks of one object); chunk_aad binds chunk size and index injectively (a chunk cannot be replayed elsewhere); chunk-AAD version resolution (unknown versions rejected, empty AAD only for LEGACY); the pre-crypto decision table of verify_metadata (stripped / partial authentication fields and strict-mode legacy are rejected — downgrade); field coverage of metadata_auth_aad (two metadata values differing only in one authenticated field have different sealed AAD; strings bounded <= 2 bytes) and prefix-freeness of the encoders. Verus (unbounded): chunk-span arithmetic and the plaintext trimming of the decryption stream (shared with C07). Partial.",
+        "note": "Scope: nonce/AAD derivation, downgrade table, AAD field coverage, chunk indexing and trimming arithmetic. AES-GCM forgery detection is a cryptographic assumption.",
+        "technique": TECH_KV,
+    },
+    "C14": {
+        "text": "Kani contract harnesses on the real auth::authorize with ApiKeyHash::verify replaced by an uninterpreted relation (the table holds for EVERY relation): Ok(Admin) iff no admin key configured or the presented key verifies against it; Ok(Database) only at Database scope with a bound key that verifies — never at Root; every rejection is the one fixed 401/unauthorized answer and is identical whether the database is unbound, bound to another key or nonexistent (relational, two calls). RootMethod::parse / DbMethod::parse: every documented method name resolves to its selector in its scope only; Read is claimed only for pure queries (frozen table written from the documentation); every other ASCII name up to 28 bytes resolves to nothing (bounded). Partial: handlers and middleware are async and not under contract.",
+        "note": "Scope: authorization decision and method/effect table.",
+        "technique": TECH_K,
+    },
+})
+
 NOT_APPLICABLE = {
     "C01": "crash-point/fault-sequence invariant over an async multi-object write protocol; no function-local contract expresses it and neither verifier can execute the storage stack (DESIGN §3 C01)",
     "C02": "relation between three concurrent index structures and the object store maintained by async methods; nothing synchronous carries it (DESIGN §3 C02)",
@@ -46,9 +59,7 @@ NOT_APPLICABLE = {
     "C17": "all-or-nothing is a frame condition over ten async collections; no synchronous kernel states any clause (DESIGN §3 C17)",
     "C18": "historical reads interleave version selection with awaits; the comparison is not separable into a callable function (DESIGN §3 C18)",
     # planned, not yet built in this commit (moved to CLAIMED when their check passes)
-    "C09": "planned (DESIGN §3 C09) — contracts not built yet in this commit",
     "C13": "planned (DESIGN §3 C13) — contracts not built yet in this commit",
-    "C14": "planned (DESIGN §3 C14) — contracts not built yet in this commit",
     "C16": "planned (DESIGN §3 C16) — contracts not built yet in this commit",
     "C19": "planned (DESIGN §3 C19) — contracts not built yet in this commit",
 }
